@@ -8,7 +8,7 @@ namespace Adaptix.Morph
 open Adaptix.Py
 
 theorem modes_sim_load_any (W : World) (m : DebugTrail) (s : Bool) (n : Nat) (T : Ty) (d : Val) :
-    Sim m (load W ⟨m, s⟩ n T d) (load W ⟨.all, s⟩ n T d) := by
+    AllSim m (load W ⟨m, s⟩ n T d) (load W ⟨.all, s⟩ n T d) := by
   by_cases hm : m = .all
   · subst hm; exact modes_sim_refl _ _
   · exact modes_sim_load W hm s n T d
@@ -17,7 +17,7 @@ theorem modes_sim_load_any (W : World) (m : DebugTrail) (s : Bool) (n : Nat) (T 
     their fuels -/
 theorem modes_sim_load_fuels (W : World) (m : DebugTrail) (s : Bool) (n N : Nat) (T : Ty) (d : Val)
     (hm : load W ⟨m, s⟩ n T d ≠ .diverge) (hA : load W ⟨.all, s⟩ N T d ≠ .diverge) :
-    Sim m (load W ⟨m, s⟩ n T d) (load W ⟨.all, s⟩ N T d) := by
+    AllSim m (load W ⟨m, s⟩ n T d) (load W ⟨.all, s⟩ N T d) := by
   have h := modes_sim_load_any W m s (max n N) T d
   rwa [modes_load_mono_le (Nat.le_max_left n N) hm, modes_load_mono_le (Nat.le_max_right n N) hA] at h
 
@@ -50,7 +50,7 @@ theorem modes_corr_first {k : String × Option Val} {l : LErr} (h : Corr .first 
 theorem modes_dsim_dump_fuels (W : World) (DW : DumpWorld) (m₁ m₂ : DebugTrail) (s : Bool) (n₁ n₂ : Nat)
     (T : Ty) (x : Val) (h₁ : dump W DW ⟨m₁, s⟩ n₁ T x ≠ .diverge) (h₂ : dump W DW ⟨m₂, s⟩ n₂ T x ≠ .diverge) :
     (∃ v, dump W DW ⟨m₁, s⟩ n₁ T x = .ok v ∧ dump W DW ⟨m₂, s⟩ n₂ T x = .ok v) ∨
-    (Fails (dump W DW ⟨m₁, s⟩ n₁ T x) ∧ Fails (dump W DW ⟨m₂, s⟩ n₂ T x)) := by
+    (Raises (dump W DW ⟨m₁, s⟩ n₁ T x) ∧ Raises (dump W DW ⟨m₂, s⟩ n₂ T x)) := by
   have h := modes_dsim_dump W DW m₁ m₂ s (max n₁ n₂) T x
   rw [modes_dump_mono_le (Nat.le_max_left n₁ n₂) h₁, modes_dump_mono_le (Nat.le_max_right n₁ n₂) h₂] at h
   rcases h with h | h | h | h
